@@ -49,4 +49,36 @@ theorem consIff_exDb : ConsIff exDb := by
     subst ha
     exact ⟨_, List.mem_singleton.2 rfl, rfl⟩
 
+
+/-! ### why `OpWF` is assumed
+
+Two requests that the `Op` type can express but a JSON body cannot (first) or that only the list
+format of microversions below 1.12 can express (second).  They show that `Reach` of `Spec/Inv.lean`
+(arbitrary `Op`s) is too wide for `RI` and for the allocation key of `Uniq`. -/
+
+/-- POST /allocations with the same consumer twice (not expressible: consumer uuids are the keys of a
+JSON object): first entry empty, second with allocations -/
+def exDup : List ConsumerReq :=
+  [{ uuid := 501, project := some 7, user := some 8, ctype := none, gen := none, allocs := [] },
+   { uuid := 501, project := some 7, user := some 8, ctype := none, gen := some 0, allocs := [(101, 0, 1)] }]
+
+example : ¬ OpWF (.allocPost 28 exDup : Op Nat) := by decide
+
+/-- the model answers 204, writes the allocation and deletes the consumer "created for an empty entry" -/
+theorem opWF_needed_for_ri : ¬ RI (step exCfg exDb (.allocPost 28 exDup)).1 := by
+  intro h
+  have h1 : ({ rp := 2, rc := 0, consumer := 501, used := 1 } : AllocRow) ∈
+      (step exCfg exDb (.allocPost 28 exDup)).1.allocs := by decide
+  obtain ⟨c, hc, e⟩ := h.allocCons _ h1
+  have h2 : ∀ c ∈ (step exCfg exDb (.allocPost 28 exDup)).1.consumers, c.uuid ≠ 501 := by decide
+  exact h2 c hc e
+
+/-- PUT /allocations below 1.12 (list format) naming provider 101 twice for class 0: both rows are stored;
+(provider, class, consumer) is not a unique index of the `allocations` table -/
+def exListDup : ConsumerReq :=
+  { uuid := 501, project := none, user := none, ctype := none, gen := none, allocs := [(101, 0, 1), (101, 0, 2)] }
+
+theorem opWF_needed_for_allocKeys : ¬ AllocKeys (step exCfg exDb (.allocPut 7 exListDup)).1 := by
+  unfold AllocKeys; decide
+
 end Placement.Wf
